@@ -2,7 +2,7 @@ import re
 
 from . import operator, xlerrors, func_xltypes
 
-CRITERIA_REGEX = r'(\W*)(.*)'
+CRITERIA_REGEX = r'^(<=|>=|<>|<|>|=)?(.*)$'
 
 CRITERIA_OPERATORS = {
     '<': operator.OP_LT,
@@ -14,11 +14,26 @@ CRITERIA_OPERATORS = {
 }
 
 
+def _kind(value):
+    if isinstance(value, (func_xltypes.Text, str)):
+        return 'text'
+    if isinstance(value, (func_xltypes.Boolean, bool)):
+        return 'boolean'
+    if isinstance(value, (func_xltypes.Number, func_xltypes.DateTime,
+                          int, float)):
+        return 'number'
+    return None
+
+
+def _same_kind(probe, value):
+    return _kind(probe) is not None and _kind(probe) == _kind(value)
+
+
 def parse_criteria(criteria):
 
     if isinstance(criteria, (str, func_xltypes.Text)):
         search = re.search(CRITERIA_REGEX, str(criteria)).group
-        str_operator, str_value = search(1), search(2)
+        str_operator, str_value = search(1) or '', search(2)
 
         operator = CRITERIA_OPERATORS.get(str_operator)
         if operator is None:
@@ -38,7 +53,13 @@ def parse_criteria(criteria):
             else:
                 break
 
+        ordering = str_operator in ('<', '<=', '>', '>=')
+
         def check(probe):
+            # An ordering criterion only matches cells of its operand's own
+            # type: ">5" does not count text cells.
+            if ordering and not _same_kind(probe, value):
+                return False
             return operator(probe, value)
 
         return check
